@@ -178,7 +178,7 @@ D6 == { <<"D6", w, Blk(w, <<e>>)>> : w \in D6Blocks, e \in EmptyCalls }
             THEN UNION { UNION { { <<"D6", "in" \o w1 \o w2, Blk("para", Wrap(w1, Wrap(w2, <<e>>)))>> :
                                    w2 \in D6Wrappers(e) \cap D6Wrappers2(w1) } : w1 \in D6Wrappers(e) } : e \in EmptyCalls }
             ELSE {})
-AllDocs(z) == D1 \cup D2 \cup D3 \cup D4 \cup D5 \cup D6
+
 
 (* ---------------- compact hand-written rendering ---------------- *)
 RECURSIVE Write(_), WriteList(_), WriteArgs(_, _)
@@ -221,6 +221,152 @@ Write(x) ==
        [] x.kind = "BOLD" -> <<"'", "'", "'">> \o kids \o <<"'", "'", "'">>
        [] x.kind = "ITALIC" -> <<"'", "'">> \o kids \o <<"'", "'">>
        [] x.kind \in {"ROOT", "LIST"} -> kids
+       [] x.kind = "PREFORMATTED" -> kids
+       [] x.kind = "MAGIC_WORD" -> x.sarg
+
+(* ---------------- D7: ADJACENCY of blocks ---------------- *)
+\* D1-D6 keep the SEAM between two blocks fixed (the second block starts on the line after the
+\* first one) and two lists with the same marker never follow each other.  D7 varies it: every
+\* ordered pair (and some triples) of block kinds - lists of every marker kind and depth, a list
+\* with a sub-list, a term with its definition line, table, heading, rule, paragraph line,
+\* preformatted line, <div>, magic word - x the SEPARATOR between them (nothing but the line
+\* break, one blank line, two blank lines, a line of blanks, a comment line followed by a blank
+\* line, a comment line alone) at top level, under a heading, inside a table cell, inside a <div>
+\* and inside a list item (every marker prefixed, below an item line).
+\* The document is a sequence of ELEMENTS  [e, m, b, n]:
+\*     e = "line"  a list line: marker m, text n          e = "blk"  a block of kind b, text n
+\*     e = "sep"   separator b
+\* ReadEls is the block level of the parser as a fold over the elements (list_fn's rules: a line
+\* whose marker equals the marker of an open item is its sibling; one that extends it - ':' also
+\* matches '*' / '#' - opens a sub-list; `;x` followed by `x:` is the definition; anything that is
+\* not a list line closes every open list; a heading takes all that follows as its content).  It
+\* gives the tree the document MUST have: in particular how many LIST nodes, with which items,
+\* and which of them nested.  The hand-written spelling writes the elements one by one (with the
+\* comment / the blanks), the second spelling is Unparse of the tree.
+ListKinds == {"ul", "ol", "ind", "dt", "ul2", "ulol", "olind", "ulind", "deep", "dl"}
+Markers(k) ==
+  CASE k = "ul" -> << <<"*">>, <<"*">> >>          [] k = "ol" -> << <<"#">>, <<"#">> >>
+    [] k = "ind" -> << <<":">> >>                   [] k = "dt" -> << <<";">> >>
+    [] k = "ul2" -> << <<"*", "*">> >>              [] k = "ulol" -> << <<"*", "#">> >>
+    [] k = "olind" -> << <<"#", ":">> >>            [] k = "ulind" -> << <<"*", ":">> >>
+    [] k = "deep" -> << <<"*">>, <<"*", "*">> >>    [] k = "dl" -> << <<";">>, <<":">> >>
+BlkKinds == {"para", "rule", "table", "pre", "div", "magic", "head"}
+AdjKinds == ListKinds \cup BlkKinds
+SepKinds == {"none", "nl", "nl2", "blanks", "cmt", "cmt0"}
+Comment == <<"<", "!", "-", "-", "SP", "c1", "SP", "-", "-", ">">>
+SepTree(s) == CASE s \in {"none", "cmt0"} -> <<>> [] s \in {"nl", "blanks", "cmt"} -> <<"NL">> [] s = "nl2" -> <<"NL", "NL">>
+SepText(s) ==
+  CASE s = "none" -> <<>> [] s = "nl" -> <<"NL">> [] s = "nl2" -> <<"NL", "NL">> [] s = "blanks" -> <<"SP", "SP", "NL">>
+    [] s = "cmt" -> Comment \o <<"NL", "NL">> [] s = "cmt0" -> Comment \o <<"NL">>
+El(e, m, b, n) == [e |-> e, m |-> m, b |-> b, n |-> n]
+Els(k, tag) ==
+  IF k \in ListKinds THEN [i \in 1..Len(Markers(k)) |-> El("line", Markers(k)[i], "", tag \o ToString(i))]
+  ELSE <<El("blk", <<>>, k, tag \o "1")>>
+SepEl(s) == <<El("sep", <<>>, s, "")>>
+MagicWord == <<"_", "_", "NOTOC__">>
+BlkKids(b, n) ==
+  CASE b = "para" -> <<S(<<n, "NL">>)>>
+    [] b = "rule" -> Rule
+    [] b = "table" -> <<Table(A1, <<Row(<<>>, <<Cell("TABLE_CELL", <<>>, <<S(<<n>>)>>)>>)>>), NL>>
+    [] b = "pre" -> <<N0("PREFORMATTED", <<S(<<"SP", n, "NL">>)>>)>>
+    [] b = "div" -> <<Node("HTML", <<"div">>, <<>>, A1, <<S(<<n>>)>>), NL>>
+    [] b = "magic" -> <<Node("MAGIC_WORD", MagicWord, <<>>, <<>>, <<>>), NL>>
+
+Extends(p, q) == Len(p) < Len(q) /\ \A i \in 1..Len(p) : q[i] \in {":", p[i]}
+OpenKids(it) == IF it.defn = <<>> THEN it.children ELSE it.defn[1]
+SetOpenKids(it, kids) == IF it.defn = <<>> THEN [it EXCEPT !.children = kids] ELSE [it EXCEPT !.defn = <<kids>>]
+IsListNode(c) == IsNode(c) /\ c.kind = "LIST"
+RECURSIVE Attach(_, _, _)
+\* the list line (m, x) read directly below the open list L: [ok, list]
+Attach(L, m, x) ==
+  LET n == Len(L.children)
+      it == L.children[n]
+      oc == OpenKids(it)
+      k == Len(oc)
+      deeper == IF k > 0 /\ IsListNode(oc[k]) THEN Attach(oc[k], m, x) ELSE [ok |-> FALSE, list |-> L]
+      WithItem(it2) == [L EXCEPT !.children = [L.children EXCEPT ![n] = it2]]
+  IN IF deeper.ok THEN [ok |-> TRUE, list |-> WithItem(SetOpenKids(it, [oc EXCEPT ![k] = deeper.list]))]
+     ELSE IF it.sarg[Len(it.sarg)] = ";" /\ it.defn = <<>> /\ m = SubSeq(it.sarg, 1, Len(it.sarg) - 1) \o <<":">>
+          THEN [ok |-> TRUE, list |-> WithItem([it EXCEPT !.defn = <<Line(x)>>])]
+     ELSE IF it.sarg = m THEN [ok |-> TRUE, list |-> [L EXCEPT !.children = Append(L.children, Item(m, Line(x)))]]
+     ELSE IF Extends(it.sarg, m) THEN [ok |-> TRUE, list |-> WithItem(SetOpenKids(it, Append(oc, List(m, <<Item(m, Line(x))>>))))]
+     ELSE [ok |-> FALSE, list |-> L]
+Place(out, el) ==
+  LET n == Len(out) IN
+  CASE el.e = "sep" -> IF SepTree(el.b) = <<>> THEN out ELSE JoinKids(out, <<S(SepTree(el.b))>>)
+    [] el.e = "line" ->
+         LET r == IF n > 0 /\ IsListNode(out[n]) THEN Attach(out[n], el.m, <<S(<<el.n>>)>>) ELSE [ok |-> FALSE, list |-> <<>>]
+         IN IF r.ok THEN [out EXCEPT ![n] = r.list] ELSE Append(out, List(el.m, <<Item(el.m, Line(<<S(<<el.n>>)>>))>>))
+    [] el.e = "blk" ->
+         IF el.b = "pre" /\ n > 0 /\ IsNode(out[n]) /\ out[n].kind = "PREFORMATTED"
+         THEN [out EXCEPT ![n] = [out[n] EXCEPT !.children = JoinKids(out[n].children, <<S(<<"SP", el.n, "NL">>)>>)]]
+         ELSE JoinKids(out, BlkKids(el.b, el.n))
+RECURSIVE ReadFrom(_, _, _)
+ReadFrom(es, k, out) ==
+  IF k > Len(es) THEN out
+  ELSE IF es[k].e = "blk" /\ es[k].b = "head"
+       THEN \* the section lasts up to the next heading (all headings here have the same level)
+            LET later == {j \in k + 1..Len(es) : es[j].e = "blk" /\ es[j].b = "head"}
+                stop == IF later = {} THEN Len(es) + 1 ELSE CHOOSE j \in later : \A j2 \in later : j <= j2
+            IN ReadFrom(es, stop, Append(out, Sec(2, <<S(<<es[k].n>>)>>, JoinKids(<<NL>>, ReadFrom(SubSeq(es, k + 1, stop - 1), 1, <<>>)))))
+       ELSE ReadFrom(es, k + 1, Place(out, es[k]))
+ReadEls(es) == ReadFrom(es, 1, <<>>)
+WriteEl(el) ==
+  CASE el.e = "sep" -> SepText(el.b)
+    [] el.e = "line" -> el.m \o <<"SP", el.n, "NL">>
+    [] el.e = "blk" -> IF el.b = "head" THEN <<"=", "=", "SP", el.n, "SP", "=", "=", "NL">> ELSE WriteList(BlkKids(el.b, el.n))
+RECURSIVE WriteEls(_)
+WriteEls(es) == IF es = <<>> THEN <<>> ELSE WriteEl(Head(es)) \o WriteEls(Tail(es))
+\* the elements inside a list item: below the line `* z1`, every marker prefixed with `*`
+InItem(es) == <<El("line", <<"*">>, "", "z1")>> \o [i \in 1..Len(es) |-> IF es[i].e = "line" THEN [es[i] EXCEPT !.m = <<"*">> \o @] ELSE es[i]]
+AdjCtx == {"top", "sec", "cell", "div", "item"}
+CtxTree(c, es) ==
+  CASE c = "top" -> ReadEls(es)
+    [] c = "item" -> ReadEls(InItem(es))
+    [] c \in {"sec", "cell", "div"} -> Outer(c, ReadEls(es))
+CtxText(c, es) ==
+  CASE c = "top" -> WriteEls(es)
+    [] c = "item" -> WriteEls(InItem(es))
+    [] c = "sec" -> <<"=", "=", "h1", "=", "=", "NL">> \o WriteEls(es)
+    [] c = "cell" -> <<"{", "|", "NL", "|", "-", "NL", "|", "NL">> \o WriteEls(es) \o <<"|", "SP", "z1", "NL", "|", "}", "NL">>
+    [] c = "div" -> <<"<", "div", "SP", "id", "=", "\"", "x1", "\"", ">", "NL">> \o WriteEls(es) \o <<"<", "/", "div", ">", "NL">>
+AdjDoc(name, c, es) == <<"D7", name, CtxTree(c, es), CtxText(c, es)>>
+Pair(k1, s, k2) == Els(k1, "a") \o SepEl(s) \o Els(k2, "b")
+Triple(k1, s1, k2, s2, k3) == Els(k1, "a") \o SepEl(s1) \o Els(k2, "b") \o SepEl(s2) \o Els(k3, "c")
+\* what stands where: a heading / magic word only at top level; in a list item only lists; the line
+\* of blanks not next to a paragraph or preformatted line (it would continue / start preformatted text);
+\* no table / div / magic word directly below a preformatted line
+PairOK(c, k1, s, k2) ==
+  /\ c # "top" => {k1, k2} \cap {"head", "magic"} = {}
+  /\ c = "item" => {k1, k2} \subseteq ListKinds
+  /\ s = "blanks" => {k1, k2} \cap {"para", "pre"} = {}
+  /\ (k1 = "pre" /\ s \in {"none", "cmt0"}) => k2 \notin {"table", "div", "magic"}   \* (the parser keeps these inside the preformatted node)
+ListQ == {"ul", "ol", "ind", "ul2", "olind", "deep"}
+D7(z) ==
+  IF Depth >= 4
+  THEN UNION { { AdjDoc(c \o ":" \o q[2], c, Pair(q[1], q[2], q[3])) :
+                   q \in {v \in AdjKinds \X SepKinds \X AdjKinds : PairOK(c, v[1], v[2], v[3])} } : c \in AdjCtx }
+       \cup UNION { { AdjDoc(c \o ":" \o q[2] \o "+" \o q[4], c, Triple(q[1], q[2], q[3], q[4], q[1])) :
+                        q \in {v \in ListKinds \X SepKinds \X AdjKinds \X SepKinds :
+                                 /\ PairOK(c, v[1], v[2], v[3]) /\ PairOK(c, v[3], v[4], v[1])
+                                 /\ c # "top" => {v[2], v[4]} \subseteq {"none", "nl"}} } : c \in {"top", "cell", "div"} }
+  ELSE { AdjDoc("top:" \o q[2], "top", Pair(q[1], q[2], q[3])) :
+           q \in {v \in AdjKinds \X SepKinds \X AdjKinds :
+                    PairOK("top", v[1], v[2], v[3]) /\ ({v[1], v[3]} \cap ListKinds = {} => v[2] \in {"none", "nl"})} }
+       \cup { AdjDoc(c \o ":" \o q[2], c, Pair(q[1], q[2], q[3])) :
+                c \in {"cell", "div"}, q \in ListQ \X {"none", "nl", "nl2", "cmt"} \X ListQ }
+       \cup { AdjDoc(c \o ":" \o q[2], c, Pair(q[1], q[2], q[3])) :
+                c \in {"cell", "div"},
+                q \in {v \in (ListQ \cup {"table", "rule", "para", "div"}) \X {"none", "nl"} \X (ListQ \cup {"table", "rule", "para", "div"}) :
+                         Cardinality({v[1], v[3]} \cap ListQ) = 1} }
+       \cup { AdjDoc("sec:nl", "sec", Pair(k1, "nl", k2)) : k1 \in ListQ, k2 \in ListQ }
+       \cup { AdjDoc("item:" \o q[2], "item", Pair(q[1], q[2], q[3])) :
+                q \in (ListKinds \X {"none"} \X ListKinds) \cup (ListQ \X {"nl"} \X ListQ) }
+       \cup { AdjDoc("top:" \o q[2] \o "+" \o q[4], "top", Triple(q[1], q[2], q[3], q[4], q[1])) :
+                q \in {v \in ListQ \X {"none", "nl"} \X AdjKinds \X {"none", "nl"} : v[3] \in BlkKinds \/ v[3] = v[1]} }
+       \cup { AdjDoc("top:" \o q[2] \o "+" \o q[3], "top", Triple(q[1], q[2], q[1], q[3], q[1])) :
+                q \in ListKinds \X {"nl", "nl2", "cmt"} \X {"nl", "nl2", "cmt"} }
+AllDocs(z) == D1 \cup D2 \cup D3 \cup D4 \cup D5 \cup D6 \cup D7(z)
 
 (* ---------------- generator ---------------- *)
 VARIABLES doc, done
@@ -230,7 +376,70 @@ Next == ~done /\ done' = TRUE /\ UNCHANGED doc
 Spec == Init /\ [][Next]_<<doc, done>>
 GenInv ==
   done \/ LET t == Doc(doc[3]) IN
-          PrintT(<<"CASE", ToJson([fam |-> doc[1], ctx |-> doc[2], w |-> Write(t), u |-> Unparse(t, {})])>>)
+          IF Len(doc) = 4   \* D7: the hand-written spelling is given, the tree is the model's reading of it
+          THEN PrintT(<<"CASE", ToJson([fam |-> doc[1], ctx |-> doc[2], w |-> doc[4], u |-> Unparse(t, {}), m |-> t])>>)
+          ELSE PrintT(<<"CASE", ToJson([fam |-> doc[1], ctx |-> doc[2], w |-> Write(t), u |-> Unparse(t, {})])>>)
+
+(* ---------------- SEAMS inside the model (Gen_Unparse_S.cfg: SpecS, one state) ---------------- *)
+\* The block reader is also applied to the EMITTED text of every document made of list lines and
+\* separators only (pairs and triples of all list kinds x all separators): split into lines, a line is
+\* blank or `marker SP word`.  SeamRoundTrip: with the ideal emitter the tree read back is equivalent to
+\* the tree written, twice, and the hand-written spelling reads as the same tree.  SeamWhatIfs: an
+\* emitter that does not write the blank-only string between two own-line nodes breaks it when LIST
+\* counts as such a node (TLC prints the shortest witness and how many documents come back with merged
+\* / re-nested lists), and does not when LIST is left out.
+RECURSIVE SplitLines(_, _)
+SplitLines(t, cur) ==
+  IF t = <<>> THEN (IF cur = <<>> THEN <<>> ELSE <<cur>>)
+  ELSE IF Head(t) = "NL" THEN <<cur>> \o SplitLines(Tail(t), <<>>) ELSE SplitLines(Tail(t), Append(cur, Head(t)))
+RECURSIVE MarkerRun(_)
+MarkerRun(l) == IF l # <<>> /\ Head(l) \in {"*", "#", ":", ";"} THEN <<Head(l)>> \o MarkerRun(Tail(l)) ELSE <<>>
+RECURSIVE NoBlank(_)
+NoBlank(l) == IF l = <<>> THEN <<>> ELSE IF Head(l) = "SP" THEN NoBlank(Tail(l)) ELSE <<Head(l)>> \o NoBlank(Tail(l))
+LineToEl(l) ==
+  IF NoBlank(l) = <<>> THEN El("sep", <<>>, "nl", "")
+  ELSE IF l[1] = "<" THEN El("sep", <<>>, "none", "")        \* the comment line: nothing
+  ELSE El("line", MarkerRun(l), "", l[Len(l)])
+ReadText(t) == LET ls == SplitLines(t, <<>>) IN ReadEls([i \in 1..Len(ls) |-> LineToEl(ls[i])])
+SeamDocs(z) ==
+  { Pair(q[1], q[2], q[3]) : q \in ListKinds \X SepKinds \X ListKinds }
+  \cup { Triple(q[1], q[2], q[1], q[3], q[1]) : q \in ListKinds \X SepKinds \X SepKinds }
+  \cup { InItem(Pair(q[1], q[2], q[3])) : q \in ListKinds \X {"none", "nl"} \X ListKinds }
+SeamRT(es, Dev) ==
+  LET t1 == Doc(ReadEls(es))
+      t2 == Doc(ReadText(Unparse(t1, Dev)))
+      t3 == Doc(ReadText(Unparse(t2, Dev)))
+  IN Equiv(t2, t1) /\ Equiv(t3, t2)
+RECURSIVE CountLists(_, _), CountListsKids(_, _)
+CountListsKids(kids, mode) == IF kids = <<>> THEN 0 ELSE CountLists(Head(kids), mode) + CountListsKids(Tail(kids), mode)
+\* number of LIST nodes: mode "all" = all of them; "top" = only those inside a list item ("in" below one)
+CountLists(x, mode) ==
+  IF IsStr(x) THEN 0
+  ELSE LET below == IF mode = "top" /\ x.kind = "LIST_ITEM" THEN "in" ELSE mode IN
+       (IF x.kind = "LIST" /\ mode \in {"all", "in"} THEN 1 ELSE 0) + CountListsKids(x.children, below)
+         + (IF x.defn = <<>> THEN 0 ELSE CountListsKids(x.defn[1], below))
+SeamRoundTrip(z) ==
+  \A es \in SeamDocs(z) :
+     \/ SeamRT(es, {}) /\ Equiv(Doc(ReadText(WriteEls(es))), Doc(ReadEls(es)))
+     \/ ~PrintT(<<"SEAMFAIL", ToJson([text |-> WriteEls(es)])>>)
+SeamWhatIfs(z) ==
+  /\ LET d == "BlankBetweenOwnLineNodesDropped"
+         W0 == {es \in SeamDocs(z) : ~SeamRT(es, {d})}
+         Back(es) == Doc(ReadText(Unparse(Doc(ReadEls(es)), {d})))
+         merged == {es \in W0 : CountLists(Back(es), "all") < CountLists(Doc(ReadEls(es)), "all")}
+         nested == {es \in W0 : CountLists(Back(es), "top") > CountLists(Doc(ReadEls(es)), "top")}
+     IN /\ W0 # {}
+        /\ LET es == CHOOSE q \in W0 : \A r \in W0 : Len(WriteEls(q)) <= Len(WriteEls(r))
+           IN PrintT(<<"SEAMWHATIF", ToJson([dev |-> d, docs |-> Cardinality(SeamDocs(z)), broken |-> Cardinality(W0),
+                                             merged |-> Cardinality(merged), nested |-> Cardinality(nested),
+                                             text |-> WriteEls(es), emitted |-> Unparse(Doc(ReadEls(es)), {d})])>>)
+  /\ LET d == "BlankBetweenOwnLineNodesDroppedExceptLists"
+         W0 == {es \in SeamDocs(z) : ~SeamRT(es, {d})}
+     IN PrintT(<<"SEAMWHATIF", ToJson([dev |-> d, docs |-> Cardinality(SeamDocs(z)), broken |-> Cardinality(W0), merged |-> 0, nested |-> 0,
+                                       text |-> <<>>, emitted |-> <<>>])>>)
+Seams == done => (SeamRoundTrip(0) /\ SeamWhatIfs(0))
+InitS == doc = <<"S", "", <<>>>> /\ done = TRUE
+SpecS == InitS /\ [][Next]_<<doc, done>>
 
 (* ---------------- laws of the emitter model, checked on every document ---------------- *)
 RECURSIVE HasPair(_, _)
